@@ -4,6 +4,7 @@ import (
 	"context"
 	"fmt"
 	"regexp"
+	"sort"
 	"strings"
 	"sync"
 	"time"
@@ -322,7 +323,17 @@ func runMux(e *Env) {
 	k.SettleUntil(50*time.Millisecond, 5*time.Millisecond, func() { cl.Process(); cl.DeliverAll() }, func() bool { return false })
 
 	if k.Violation() == nil {
-		muxAccounting(k, cl, sess, proto)
+		// a heartbeat may be in flight at any single instant (written, or waiting in the
+		// coalescer); a real leak persists, so the books must balance at some quiescence
+		// of a 300 ms window sampled every 7 ms
+		var lastSig, lastMsg string
+		okAcc := k.SettleUntil(300*time.Millisecond, 7*time.Millisecond, func() { cl.Process(); cl.DeliverAll() }, func() bool {
+			lastSig, lastMsg = muxAccounting(k, cl, sess, proto)
+			return lastSig == ""
+		})
+		if !okAcc {
+			k.Violate("C06", lastSig, "%s", lastMsg)
+		}
 	}
 
 	// ---- close and leak check ----
@@ -340,15 +351,30 @@ func runMux(e *Env) {
 	if !okClose && k.Violation() == nil {
 		k.Violate("C06", "C06/session-close-hangs", "Session.Close did not return within %v simulated", closeBound)
 	}
-	for _, c := range cl.Net.Conns() {
-		if okClose && !c.ClientClosed() && k.Violation() == nil {
-			k.Violate("C06", "C06/conn-open-after-close", "connection %s still open after Session.Close returned", c.Name)
+	// Close may return while another goroutine is still in the middle of closing a
+	// connection (closeWithError waits for a caller stuck in a stalled write); what is
+	// demanded is that every connection is closed and every driver goroutine gone within
+	// the bound, without any help from the server side.
+	allClosed := func() string {
+		for _, c := range cl.Net.Conns() {
+			if !c.ClientClosed() {
+				return c.Name
+			}
 		}
+		return ""
 	}
-	cl.CloseAll()
-	k.SettleUntil(closeBound, 100*time.Millisecond, nil, func() bool { return len(DriverGoroutines()) == 0 })
+	k.SettleUntil(closeBound, 100*time.Millisecond, nil, func() bool { return allClosed() == "" && len(DriverGoroutines()) == 0 })
+	if name := allClosed(); okClose && name != "" && k.Violation() == nil {
+		k.Violate("C06", "C06/conn-open-after-close", "connection %s still open %v after Session.Close returned", name, closeBound)
+	}
 	if gs := DriverGoroutines(); len(gs) > 0 && k.Violation() == nil {
 		k.Violate("C06", "C06/goroutine-leak:"+TopFrames(gs[0], 3), "%d driver goroutine(s) still alive %v after Session.Close; first:\n%s", len(gs), closeBound, gs[0])
+	}
+	cl.CloseAll()
+	if !k.SettleUntil(closeBound, 100*time.Millisecond, nil, func() bool { return len(kernel.BubbleGoroutines()) == 0 }) {
+		if gs := kernel.BubbleGoroutines(); len(gs) > 0 {
+			k.Rec("lingering %d: %s", len(gs), gs[0])
+		}
 	}
 	e.Note("streams.started", obs.started)
 }
@@ -399,7 +425,7 @@ func muxProbes(k *kernel.Kernel, cl *node.Cluster) {
 
 // muxAccounting checks the stream bookkeeping of every live connection at a settled
 // quiescence: available == capacity - 1 - |ids whose answer the node never delivered|.
-func muxAccounting(k *kernel.Kernel, cl *node.Cluster, sess *gocql.Session, proto int) {
+func muxAccounting(k *kernel.Kernel, cl *node.Cluster, sess *gocql.Session, proto int) (string, string) {
 	capacity := 32768
 	if proto <= 2 {
 		capacity = 128
@@ -417,8 +443,8 @@ func muxAccounting(k *kernel.Kernel, cl *node.Cluster, sess *gocql.Session, prot
 			if ssc == nil || ssc.Dead {
 				continue
 			}
-			if len(sc.Inbox()) != 0 {
-				continue // a partial frame is sitting in the inbox: connection is about to fail
+			if len(sc.Inbox()) != 0 || sc.Busy() {
+				continue // a partial frame or a stalled write: the connection is about to fail
 			}
 			want := capacity - 1 - len(ssc.Outstanding)
 			got := c.AvailableStreams()
@@ -430,9 +456,17 @@ func muxAccounting(k *kernel.Kernel, cl *node.Cluster, sess *gocql.Session, prot
 				if got > want {
 					sig = "C06/stream-released-while-response-outstanding"
 				}
-				k.Violate("C06", sig, "connection %s at settled quiescence: AvailableStreams()=%d, expected %d (capacity %d, ids with undelivered answers %d)",
-					sc.Name, got, want, capacity, len(ssc.Outstanding))
+				var owed []int
+				for id := range ssc.Outstanding {
+					owed = append(owed, id)
+				}
+				sort.Ints(owed)
+				calls := c.VerifCallStreams()
+				sort.Ints(calls)
+				return sig, fmt.Sprintf("connection %s at settled quiescence: AvailableStreams()=%d, expected %d (capacity %d); ids reserved in the driver %v; ids in its call table %v; ids whose answer the node never delivered %v",
+					sc.Name, got, want, capacity, InUseStreams(c.VerifStreamsState()), calls, owed)
 			}
 		}
 	}
+	return "", ""
 }
